@@ -308,20 +308,35 @@ def pipeline(chk: core.Check, ext, per_family):
         classes = {m['class'] for m in r['snaps']['read'].values()}
         cands = [d for d in decls if d['class'] in classes and d['kind'] in ('floatParameter', 'intParameter')]
         chk.rng.shuffle(cands)
-        for d in cands[:per_family]:
+        # the parameters an ordinary input file sets are probed in every family; the others by a seeded sample
+        first = [d for d in cands if d['name'] in base]
+        rest = [d for d in cands if d['name'] not in base]
+        for d in first + rest[:per_family]:
             if d['kind'] == 'floatParameter':
                 probes = []
                 if d['min'] is not None:
                     probes += [('below', nxt(d['min'], False), 'reject'), ('min', float(d['min']), 'accept')]
                 if d['max'] is not None:
                     probes += [('above', nxt(d['max'], True), 'reject'), ('max', float(d['max']), 'accept')]
+                # far outside as well as just outside: a re-interpretation heuristic (another unit, a percentage, a sentinel) would sit there
+                if d['min'] is not None and math.isfinite(d['min']):
+                    mn_ = float(d['min'])
+                    for tag_, v_ in (('far-below/half', mn_ / 2 if mn_ > 0 else mn_ * 2 - 1), ('far-below/tenth', mn_ / 10 if mn_ > 0 else mn_ * 10 - 7.5),
+                                     ('far-below/negated', -abs(mn_) - 0.25)):
+                        if v_ < mn_:
+                            probes.append((tag_, v_, 'reject'))
+                if d['max'] is not None and math.isfinite(d['max']):
+                    mx_ = float(d['max'])
+                    for tag_, v_ in (('far-above/double', mx_ * 2 if mx_ > 0 else mx_ / 2 + 1), ('far-above/x100', mx_ * 100 if mx_ > 0 else mx_ / 100 + 50)):
+                        if v_ > mx_ and math.isfinite(v_):
+                            probes.append((tag_, v_, 'reject'))
                 probes.append(('nan', 'nan', 'reject'))
             else:
                 al = d['allow']
                 probes = [('below', min(al) - 1, 'reject'), ('above', max(al) + 1, 'reject'), ('member-hi', max(al), 'accept')]
             for tag, v, expect in probes:
-                if v == d.get('default'):
-                    continue
+                if v == d.get('default') or v == d.get('value0'):
+                    continue   # equal to the declared default / the initial (sentinel) value: the reader returns before the range test — the documented not-provided sentinel
                 p = dict(base)
                 if d['name'] in p and p[d['name']] == v:
                     continue
@@ -337,7 +352,7 @@ def pipeline(chk: core.Check, ext, per_family):
         err = (r.get('error') or '') + ' ' + (r.get('cause') or '')
         if expect == 'reject':
             if r.get('ok'):
-                chk.fail(f'C07/pipeline/accepted-out-of-range/{tag}' + ('' if tag == 'nan' else f'/{d["name"]}'), f'a full run with {d["name"]} = {v!r} (outside its range) produced a result', rep)
+                chk.fail(f'C07/pipeline/accepted-out-of-range/{tag.split("/")[0]}' + ('' if tag == 'nan' else f'/{d["name"]}'), f'a full run with {d["name"]} = {v!r} (outside its range) produced a result', rep)
             elif d['name'] not in err:
                 chk.fail(f'C07/pipeline/error-does-not-name-parameter/{d["name"]}', f'the run failed but the error does not name {d["name"]}', rep)
         else:
